@@ -405,6 +405,10 @@ def iter_to_seq(run, it, node):
 
 # ------------------------------------------------------------------ operators
 def binop(run, op, a, b, node):
+    if isinstance(a, Val):
+        h = run.x.reg.stubs.get(("binop", type(op).__name__, a.ty.name))
+        if h is not None:
+            return h(run, a, b, node)
     if isinstance(op, ast.Add):
         if isinstance(a, VTuple) and isinstance(b, VTuple):
             return VTuple(a.items + b.items)
